@@ -60,7 +60,7 @@ func (w *world) setup(o *hx.Out, k int) {
 		gas(u.ScriptHash(), 20000)
 	}
 	for _, c := range w.cands {
-		gas(c.GetScriptHash(), 3000)
+		gas(c.GetScriptHash(), 6000)
 	}
 	for _, x := range w.wallets {
 		gas(x, 50)
@@ -179,6 +179,25 @@ func (g *genCtx) amount(bal *big.Int, neo bool) *big.Int {
 	}
 }
 
+// withDeposit prefers a signer that has a deposit (expired if asked for).
+func (g *genCtx) withDeposit(signers []util.Uint160, dflt util.Uint160, expired bool) util.Uint160 {
+	if g.w.r.Chance(1, 5) {
+		return dflt
+	}
+	h := g.w.bc.BlockHeight()
+	for _, s := range signers {
+		if d := g.st.deps[s]; d != nil && (!expired || d.till <= h) {
+			return s
+		}
+	}
+	for _, s := range signers {
+		if g.st.deps[s] != nil {
+			return s
+		}
+	}
+	return dflt
+}
+
 func (g *genCtx) pickPub(registeredBias bool) *keys.PublicKey {
 	w := g.w
 	if registeredBias && w.r.Chance(3, 4) {
@@ -210,7 +229,8 @@ func (g *genCtx) genCall(signers []util.Uint160, by *util.Uint160, depth int) *c
 	case 0, 1: // NEO / GAS transfer
 		neo := kind == 0
 		dst := w.anyAccount()
-		if r.Chance(1, 12) {
+		self := r.Chance(1, 12)
+		if self {
 			dst = src
 		}
 		var bal *big.Int
@@ -220,6 +240,9 @@ func (g *genCtx) genCall(signers []util.Uint160, by *util.Uint160, depth int) *c
 			bal = g.gasOf(src)
 		}
 		c := &call{kind: kTransfer, neo: neo, src: src, dst: dst, amt: g.amount(bal, neo)}
+		if self && neo && r.Chance(1, 2) {
+			c.amt = new(big.Int).Set(bal) // whole balance to itself
+		}
 		if w.isWallet(dst) && r.Chance(1, 6) {
 			c.data = dInt
 		}
@@ -231,7 +254,7 @@ func (g *genCtx) genCall(signers []util.Uint160, by *util.Uint160, depth int) *c
 	case 4: // registerCandidate (method)
 		return &call{kind: kRegister, pub: g.pickPub(false)}
 	case 5: // registration by payment (NEP-27)
-		amt := big.NewInt(1000 * gasUnit)
+		amt := big.NewInt(g.st.regPrice)
 		if r.Chance(1, 6) {
 			amt = big.NewInt(int64(r.Intn(3)) * gasUnit)
 		}
@@ -291,12 +314,14 @@ func (g *genCtx) genCall(signers []util.Uint160, by *util.Uint160, depth int) *c
 		}
 		return c
 	case 8: // lockDepositUntil
+		src = g.withDeposit(signers, src, false)
 		c := &call{kind: kLock, src: src, till: height + uint32(r.Range(0, 8))}
 		if d := g.st.deps[src]; d != nil {
 			c.till = d.till + uint32(r.Range(0, 4)) - 1
 		}
 		return c
 	case 9: // withdraw
+		src = g.withDeposit(signers, src, true)
 		c := &call{kind: kWithdraw, src: src, dstNil: true}
 		if r.Chance(1, 2) {
 			c.dstNil = false
@@ -360,6 +385,14 @@ func (g *genCtx) genTx() *txSpec {
 	all := w.signable()
 	n := 1 + r.Intn(2)
 	var signers []util.Uint160
+	if r.Chance(1, 4) { // somebody with a deposit
+		for _, h := range all {
+			if g.st.deps[h] != nil && r.Bool() {
+				signers = append(signers, h)
+				break
+			}
+		}
+	}
 	for len(signers) < n {
 		h := all[r.Intn(len(all))]
 		dup := false
@@ -373,6 +406,27 @@ func (g *genCtx) genTx() *txSpec {
 	s := &txSpec{abort: r.Chance(1, 16)}
 	nc := r.Weighted([]int{1, 10, 6, 3})
 	sys := int64(2 * gasUnit)
+	// now and then a committee operation (only when the committee cannot change before the
+	// transaction runs, i.e. the next block does not start an epoch)
+	if r.Chance(1, 20) && (w.bc.BlockHeight()+1)%uint32(w.C) != 0 {
+		com := w.committeeSigner()
+		w.signer[com.ScriptHash()] = com
+		if r.Chance(4, 5) {
+			signers = append(signers, com.ScriptHash())
+		}
+		var c *call
+		if r.Bool() {
+			vals := []int64{0, 1 * gasUnit, 3 * gasUnit, 5 * gasUnit, 10 * gasUnit, 10*gasUnit + 1, -1, 123456789}
+			c = &call{kind: kSetGpb, amt: big.NewInt(vals[r.Intn(len(vals))])}
+		} else {
+			vals := []int64{10 * gasUnit, 500 * gasUnit, 1000 * gasUnit, 0, 77 * gasUnit}
+			c = &call{kind: kSetRegPrice, amt: big.NewInt(vals[r.Intn(len(vals))])}
+		}
+		s.calls = append(s.calls, c)
+		sys += gasUnit
+		o := 0
+		_ = o
+	}
 	for i := 0; i < nc; i++ {
 		c := g.genCall(signers, nil, 0)
 		s.calls = append(s.calls, c)
@@ -380,15 +434,28 @@ func (g *genCtx) genTx() *txSpec {
 	}
 	s.sysFee = sys
 	need := sys + 2*gasUnit
-	if g.gasOf(signers[0]).Int64()-g.spent[signers[0]] < need {
-		val := w.valSigner.ScriptHash()
+	enough := func(h util.Uint160) bool {
+		b := g.gasOf(h)
+		return !b.IsInt64() || b.Int64()-g.spent[h] >= need
+	}
+	if !enough(signers[0]) {
+		var payer *util.Uint160
+		for _, h := range append([]util.Uint160{w.valSigner.ScriptHash()}, all...) {
+			if enough(h) {
+				payer = &h
+				break
+			}
+		}
+		if payer == nil {
+			return nil // nobody can pay for it
+		}
 		rest := signers[:0:0]
 		for _, h := range signers {
-			if h != val {
+			if h != *payer {
 				rest = append(rest, h)
 			}
 		}
-		signers = append([]util.Uint160{val}, rest...)
+		signers = append([]util.Uint160{*payer}, rest...)
 	}
 	g.spent[signers[0]] += need
 	s.signers = signers
@@ -436,7 +503,11 @@ func (w *world) randomBlock(o *hx.Out, k int) {
 				continue
 			}
 		}
-		specs = append(specs, g.genTx())
+		if s := g.genTx(); s != nil {
+			specs = append(specs, s)
+		} else {
+			o.Count("tx:skipped-no-payer")
+		}
 	}
 	w.runBlock(o, k, specs)
 }
